@@ -36,6 +36,14 @@ var (
 	tableMetaOnce sync.Once
 )
 
+var (
+	// instances holds, by database name, the cache of the data source that was opened for that database.
+	// Only one cache is registered per database type (the one of the data source opened last), so it has
+	// to hand a request for another database over to the cache that reads from the right data source.
+	instances     = map[string]*TableMetaCache{}
+	instancesLock sync.RWMutex
+)
+
 type TableMetaCache struct {
 	tableMetaCache *base.BaseTableMetaCache
 	db             *sql.DB
@@ -45,6 +53,11 @@ func NewTableMetaInstance(db *sql.DB, cfg *mysql.Config) *TableMetaCache {
 	tableMetaInstance := &TableMetaCache{
 		tableMetaCache: base.NewBaseCache(capacity, EexpireTime, NewMysqlTrigger(), db, cfg),
 		db:             db,
+	}
+	if cfg != nil {
+		instancesLock.Lock()
+		instances[cfg.DBName] = tableMetaInstance
+		instancesLock.Unlock()
 	}
 	return tableMetaInstance
 }
@@ -58,6 +71,13 @@ func (c *TableMetaCache) Init(ctx context.Context, conn *sql.DB) error {
 func (c *TableMetaCache) GetTableMeta(ctx context.Context, dbName, tableName string) (*types.TableMeta, error) {
 	if tableName == "" {
 		return nil, fmt.Errorf("table name is empty")
+	}
+
+	instancesLock.RLock()
+	owner := instances[dbName]
+	instancesLock.RUnlock()
+	if owner != nil && owner != c {
+		return owner.GetTableMeta(ctx, dbName, tableName)
 	}
 
 	conn, err := c.db.Conn(ctx)
